@@ -33,14 +33,14 @@ class Semaphore {
 
     //! 请求资源，注意：只能是协程调用
     bool acquire () {
-        if (count_ == 0) {      //! 如果没有资源，则等待
+        if (count_ <= 0) {      //! 如果没有资源，则等待 (a negative initial count is a debt: nothing is granted before it is paid)
             do {
                 //! register before every wait: release() takes the tokens out when it wakes us
                 token_.push(sch_.getToken());
                 sch_.wait();
                 if (sch_.isCanceled())
                     return false;
-            } while (count_ == 0);
+            } while (count_ <= 0);
         }
 
         --count_;
